@@ -7,6 +7,13 @@ State space (product bound, exhaustive): deterministic model specs
   x front end (ro, dro used deterministically) x 4 objective directions x variable types x solver interface.
 Oracle: solve; read x.get(); re-evaluate EVERY user constraint (box, linear, atom) and the objective with
 independent closed-form NumPy atoms at the returned point.
+
+Re-solve histories (cases with a 'hist' field): atom x multiplier +-{1, 0.5, 2.5} x scalar / element-wise array /
+vector / summed form x constant (number, 0-d, n-d array) or affine right-hand side x constraint / objective position
+x front end x history in {solve,st,solve; do_math,st,solve; solve,st,solve,st,solve} where st adds a constraint
+implied by the user box.  The same oracle is applied to EVERY solve of the history, all solves must report the
+same optimum, and the numeric content of the user's own constraint / objective objects (affine_in, affine_out,
+scale, multiplier, params, linear rows, bounds ...) must be unchanged after every compilation.
 """
 import numpy as np
 
@@ -20,7 +27,8 @@ RULE = ('every DetSpec of the grammar atom x position x composition x shape/summ
         'direction x vtype x interface; a case is conclusive when the solve reports optimal and all user '
         'constraints and the objective were re-evaluated by closed forms at x.get(); it is non-trivial when, in '
         'addition, the atom constraint under test is active (slack <= 1e-3 relative, or the implicit domain boundary of its cone is reached) or the atom is the objective; '
-        'distinct = distinct (spec, interface)')
+        'distinct = distinct (spec, interface[, history]); a history case is conclusive when every solve of the history '
+        'was judged, and counts one state per solve')
 ASSUMPTIONS = [
     'closed forms in rsmc/ref/c06c07_atoms.py are the meaning of the atoms (power = |x|^(p/q), entropy = -sum x log x, '
     'kldiv = sum p log(p/q), rsocone = sumsqr(x) <= y*z with y,z >= 0, expcone = z exp(x/z) <= y)',
@@ -31,6 +39,10 @@ ASSUMPTIONS = [
     'a constraint whose residual exceeds the tolerance at x.get() is still accepted when some point within the '
     'solver accuracy in x (1e-6 ECOS, 1e-5 Gurobi, 1e-7 LP) satisfies it: covers active constraints next to a domain '
     'boundary (plog with argument ~1e-7) where the residual is ill-conditioned',
+    'history cases: constraints added between compilations are implied by the box (x0 <= 4, g.x <= 8 on [-2,2]^n), so '
+    'the optimum must not move (tolerance 10x the objective tolerance); user objects are compared numerically '
+    '(dtype, shape, values; sparse coefficient matrices by rows and non-zeros - rsome widens their column count in '
+    'place when auxiliary variables are added, which is not a numerical change)',
     'exceptions raised while building / formulating / solving are loud rejections (allowed by the statement): unsupported',
 ]
 TRUSTED = ['CPython', 'NumPy closed forms', 'ECOS / Gurobi / HiGHS / OR-tools as solvers under the interfaces']
@@ -52,10 +64,22 @@ def _nbhd(v, delta):
 
 
 def gen_cases(tier, seed):
+    import os
     thorough = tier == 'thorough'
-    for tag, ktag, spec in S.c06_specs(tier, seed):
-        for solver in S.solvers_for(spec, thorough):
-            yield {'tag': tag, 'k': ktag, 'solver': solver, 'spec': spec}
+    only = os.environ.get('RSMC_C06_SUB')          # development aid: 'single' | 'hist'
+    if only in (None, '', 'single'):
+        for tag, ktag, spec in S.c06_specs(tier, seed):
+            for solver in S.solvers_for(spec, thorough):
+                yield {'tag': tag, 'k': ktag, 'solver': solver, 'spec': spec}
+    if only in (None, '', 'hist'):
+        # re-solve histories: the same user objects are compiled again after the model was extended
+        for tag, ktag, spec in S.c06_hist_specs(tier, seed):
+            solvers = S.solvers_for(spec, thorough)
+            for solver in (solvers if (thorough and spec['pal'] == 0) else solvers[:1]):
+                if solver == 'ort':
+                    continue
+                for hist in S.HISTORIES:
+                    yield {'tag': tag, 'k': ktag, 'solver': solver, 'spec': spec, 'hist': hist}
 
 
 def exhaustive(tier):
@@ -67,10 +91,14 @@ def bounds(tier):
     return {'n_vars': [2, 3] if th else [2], 'palettes': 4 if th else 1, 'multipliers': [1, 2.5, 0.5, -1, -2.5, -0.5],
             'directions': '4 fixed + 1 adversarial (along the affine right-hand side)', 'vec_len': [2, 3], 'front_ends': ['ro', 'dro'],
             'interfaces': ['eco', 'grb(LP/SOC)', 'def(LP)'] + (['ort(LP)'] if th else []),
-            'vtypes': ['C', 'I', 'BC']}
+            'vtypes': ['C', 'I', 'BC'],
+            'histories': {'sequences': S.HISTORIES, 'multipliers': [1, 0.5, 2.5, -1, -0.5, -2.5],
+                          'rhs': ['constant (number / 0-d / n-d array)', 'affine'], 'positions': ['constraint', 'objective'],
+                          'palettes': 4 if th else 1, 'interfaces': 'first applicable (ECOS); all applicable on palette 0' if th else 'first applicable (ECOS)'}}
 
 
 _R = {}
+_NOSNAP = bool(__import__('os').environ.get('RSMC_C06_NOSNAP'))     # development aid: behavioural oracle only
 
 
 def worker_init():
@@ -115,10 +143,11 @@ def _epigraph_solves(spec, solver):
 
 
 def run_case(case):
+    if case.get('hist'):
+        return run_hist(case)
     spec, solver, tag = case['spec'], case['solver'], case['tag']
     fe = spec['fe']
     base_sig = '%s|%s' % (fe, tag)
-    pos = tag.rsplit('|', 1)[1]
     nops = 0
     try:
         m, x, nops = S.build_model(_R, spec)
@@ -127,6 +156,106 @@ def run_case(case):
                 'detail': str(ex)[:200]}
     st, info = S.solve(_R, m, solver)
     nops += 1
+    return _judge(case, m, x, st, info, nops, base_sig)
+
+
+def _redundant(m, x, spec, j):
+    """A constraint implied by the user box, added between two compilations (j-th extension)."""
+    if j % 2 == 0:
+        return m.st(x[0] <= 4.0)
+    g = np.array(([1.0, -0.5, 0.25] * 2)[:spec['n']])
+    return m.st(g @ x <= 8.0)
+
+
+def run_hist(case):
+    """solve / do_math -> extend the model by a redundant constraint -> solve again (...): the oracle of the
+    single-solve cases is applied to EVERY solve, all solves must report the same optimum, and the numeric
+    content of the user's own constraint / objective objects must be unchanged after every compilation."""
+    spec, solver, tag, hist = case['spec'], case['solver'], case['tag'], case['hist']
+    fe = spec['fe']
+    base_sig = '%s|%s|hist=%s' % (fe, tag, hist)
+    keep = []
+    try:
+        m, x, nops = S.build_model(_R, spec, keep=keep)
+        snap0 = [S.snapshot(o) for o in keep]
+    except Exception as ex:  # noqa
+        return {'status': 'unsupported', 'outcome': 'raise@build:%s' % type(ex).__name__, 'ops': 4,
+                'detail': str(ex)[:200]}
+    nsolve = 0
+    nst = 0
+    first_obj = None
+    last = None
+    worst = None            # the most informative non-pass outcome if no violation shows up
+    for step in hist.split(','):
+        if step == 'st':
+            try:
+                _redundant(m, x, spec, nst)
+            except Exception as ex:  # noqa
+                return {'status': 'unsupported', 'outcome': 'raise@st-after-compile:%s' % type(ex).__name__,
+                        'ops': nops, 'detail': str(ex)[:200]}
+            nst += 1
+            nops += 1
+            continue
+        if step == 'domath':
+            try:
+                m.do_math()
+            except Exception as ex:  # noqa
+                return {'status': 'unsupported', 'outcome': 'raise@do_math:%s' % type(ex).__name__, 'ops': nops,
+                        'detail': str(ex)[:200]}
+            nops += 1
+            res = None
+        else:
+            nsolve += 1
+            st, info = S.solve(_R, m, solver)
+            nops += 1
+            res = _judge(case, m, x, st, info, nops, '%s|solve#%d' % (base_sig, nsolve))
+            nops = res.get('ops', nops)
+        if res is not None and res['status'] == 'violation':
+            return res
+        # the user's objects after this compilation
+        for i, (o, s0) in enumerate(zip(keep, snap0) if not _NOSNAP else ()):
+            d = S.snap_diff(s0, S.snapshot(o), '')
+            if d:
+                what = 'objective' if i == len(keep) - 1 else ('box' if i < 2 else 'constraint#%d' % (i - 2))
+                return {'status': 'violation', 'ops': nops,
+                        'sig': '%s|user-object-edited(%s%s)' % (base_sig, type(o).__name__, d),
+                        'detail': 'after compilation %d (%s) the %s object %s differs from what the user built in '
+                                  'field %s (%s)' % (nsolve + (step == 'domath'), step, what, type(o).__name__, d, case['k'])}
+        if res is None:
+            continue
+        if res['status'] == 'violation':
+            return res
+        if res['status'] != 'pass':
+            if nsolve == 1:
+                return res          # the plain model is not solvable: same verdict as the single-solve case
+            worst = res
+            continue
+        if first_obj is None:
+            first_obj = res['objv']
+        elif abs(res['objv'] - first_obj) > 10 * OTOL[solver] * (1.0 + abs(first_obj)):
+            return {'status': 'violation', 'ops': nops, 'sig': '%s|solve#%d|optimum-changed' % (base_sig, nsolve),
+                    'detail': 'optimum %.9g at solve #1, %.9g at solve #%d although only constraints implied by the '
+                              'box were added (%s, %s)' % (first_obj, res['objv'], nsolve, solver, case['k'])}
+        last = res
+    if worst is not None:
+        if last is not None or first_obj is not None:
+            # solved before, not solvable after a redundant extension
+            return {'status': 'vacuous', 'outcome': 'hist:later-' + str(worst.get('outcome')), 'ops': nops,
+                    'detail': worst.get('detail')}
+        return worst
+    if last is None:
+        return {'status': 'vacuous', 'outcome': 'hist:no-solve', 'ops': nops}
+    out = dict(last)
+    out['outcome'] = 'hist:' + last['outcome']
+    out['states'] = nsolve
+    out['ops'] = nops
+    return out
+
+
+def _judge(case, m, x, st, info, nops, base_sig):
+    """The oracle for one solve: every user constraint and the objective re-evaluated at the returned point."""
+    spec, solver, tag = case['spec'], case['solver'], case['tag']
+    pos = 'obj' if tag.rsplit('|', 1)[1] == 'obj' else 'cons'
     if st == 'raise':
         return {'status': 'unsupported', 'outcome': 'raise@solve:%s' % info.split(':')[0], 'ops': nops, 'detail': info}
     if st != 'optimal':
@@ -201,7 +330,7 @@ def run_case(case):
                 'detail': 'model.get()=%.8g but the user objective at x.get()=%s is %.8g (%s, %s)' %
                           (objv, v[0].tolist(), ov, solver, case['k'])}
     nontrivial = active or pos == 'obj'
-    return {'status': 'pass', 'ops': nops, 'nontrivial': bool(nontrivial), 'mres': mres,
+    return {'status': 'pass', 'ops': nops, 'nontrivial': bool(nontrivial), 'mres': mres, 'objv': objv,
             'ores': abs(ov - objv) / (1.0 + abs(ov)),
             'outcome': 'ok:%s:%s%s' % (pos, 'active' if active else ('atom-objective' if pos == 'obj' else 'inactive'),
                                        ':within-x-accuracy' if nudged else '')}
